@@ -11,7 +11,7 @@ PROP = 'C09'
 MODULE = 'WaveletsVerif.Properties.C09'
 THEOREMS = ['WV.C09.hasDerivAt_smoothmag', 'WV.C09.smoothmag_deriv_at_zero', 'WV.C09.r_ge_bias', 'WV.C09.ratio_le_one', 'WV.C09.ratio_le_one_im',
             'WV.C09P.pool_up_adjoint', 'WV.C09P.scat1_backward_adjoint',
-            'WV.C09Q.block1_adjoint', 'WV.C09Q.block2_adjoint', 'WV.C09Q.scat2_backward_adjoint']
+            'WV.C09Q.block1_adjoint', 'WV.C09Q.block2_adjoint', 'WV.C09Q.scat2_backward_adjoint', 'WV.C10Z.scat_glue_gen', 'WV.C10Z.forward_keeps_no_state_gen']
 
 
 def dirderiv(f, x, v, eps):
